@@ -25,11 +25,12 @@ def run(repo, chk):
     R.run('DIVLEN', divlen, repo, chk)
     R.run('PAIR', pf_common.pair_filters, repo, chk, 'PAIR')
     refcheck.run_all(R, repo, chk, 'RECUR', 'resume_ref.py', WHAT)
+    refcheck.run_all(R, repo, chk, 'RECUR', 'driver_ref.py', {'comp_call': 'per page: load, process, then the writes in the order line crops, PAGE XML, render, logits, ALTO; every failure is reported and the page is left unfinished', 'comp_init': 'the computator keeps every directory in the field of the same name'}, only=('comp_init', 'comp_call', 'lmdb_call', 'get_value_or_none', 'create_dir_if_not_exists'))
     chk.expect('DONESET', 6)
     chk.expect('REGEX', 4)
     chk.expect('DIVLEN', 2)
     chk.expect('PAIR', 3)
-    chk.expect('RECUR', 2)
+    chk.expect('RECUR', 7)
 
 
 def doneset(repo, chk):
